@@ -3,8 +3,8 @@
 // that asset left out of the assets; if the events logged by the runs of that flow differ, the run touches an
 // asset inspection does not know about.  The references are found by the harness's own walk of the definition
 // (reference members, has_group arguments, and the context paths the excellent parser finds in every template
-// string — independent of flows/inspect).  Runs on the corpus in every tier and on generated cases in the
-// thorough and search tiers.
+// string — independent of flows/inspect).  Runs on every case in every tier: on the unchanged tree there are
+// hardly any candidates (everything written in a flow is listed), so it costs nothing.
 package main
 
 import (
